@@ -3,22 +3,27 @@ import json
 
 
 def run(ctx):
-    # 1. exhaustive model check: two concurrent sessions, the attacker chooses every deliverable signature message
-    consts = {"MaxOps": 6}
+    if ctx.replay:
+        return rerun(ctx)
+    # 1. exhaustive model check: three concurrent sessions (honest dialer, attacker's node, self-connection), the attacker chooses every deliverable signature message
+    consts = {"MaxOps": 9}
     if ctx.quick():
-        consts.update({"SigForms": '{"full", "nov", "rflip", "empty"}', "PkForms": '{"comp", "bad"}'})
+        consts.update({"SigForms": '{"full", "rflip", "empty"}', "PkForms": '{"comp", "bad"}'})
     r = ctx.model_check("net", "MC_Handshake", "MC_Handshake.cfg", constants=consts, coverage=True,
                         timeout=ctx.pick(600, 3000))
     ctx.check_coverage(r, ["Start", "ToAcceptor", "ToDialer"])
     ctx.exhaustive = True
     # 2. behaviours: every run of <= 3 events (all single deliveries after one or two key exchanges) + random walks
-    bs = ctx.behaviours("net", "Gen_Handshake", "Gen_Handshake.cfg", constants={"MaxOps": 3, "Depth": 3}, timeout=900)
-    walks = ctx.behaviours("net", "Gen_Handshake", "Gen_Handshake.cfg", constants={"MaxOps": 6, "Depth": 6},
-                           simulate="num=%d" % ctx.pick(1500, 12000), depth=8, seed=ctx.seed, timeout=1500)
+    bs = ctx.behaviours("net", "Gen_Handshake", "Gen_Handshake.cfg", constants={"MaxOps": 3, "Depth": 3, "Sessions": "{1, 2}"}, timeout=900)
+    walks = ctx.behaviours("net", "Gen_Handshake", "Gen_Handshake.cfg", constants={"MaxOps": 9, "Depth": 9},
+                           simulate="num=%d" % ctx.pick(1500, 12000), depth=11, seed=ctx.seed, timeout=1500)
     allb = bs + walks
-    if ctx.replay:
-        d = json.load(open(ctx.replay))["detail"]
-        allb = [{"behaviour": d["behaviour"], "sub": d["sub"]}]
+    # vacuity guard on the generated cases: every verdict class of the spec must occur
+    seen = {st["res"] for b in allb for st in b}
+    missing = {"accept", "error:pubkey", "error:sigparse", "error:verify", "error:self", "error:remote"} - seen
+    if missing:
+        from vlib import MachineryError
+        raise MachineryError("vacuity: verdict classes never generated: %s" % sorted(missing))
     inp = ctx.path("in", "behaviours.ndjson")
     with open(inp, "w") as fh:
         for b in allb:
@@ -26,14 +31,13 @@ def run(ctx):
     # 3. replay into three real Authenticators (nodes a, b, m) with real key exchanges and real signatures
     recs = ctx.go_replay("handshake", "TestReplay", inp, shards=ctx.pick(2, 4), timeout=ctx.pick(600, 1800))
     ctx.absorb(recs)
-    if not ctx.replay:
-        for b in (walks[:2] + bs[-1:]):
-            ctx.sample(b)
+    for b in (walks[:2] + bs[-1:]):
+        ctx.sample(b)
     return ctx.finish(
-        rule="a behaviour = TLC-generated run of two handshake sessions against one acceptor (key exchanges, then "
+        rule="a behaviour = TLC-generated run of up to three handshake sessions against one acceptor (key exchanges, then "
              "signature messages chosen by the network attacker among everything it can construct: genuine, replayed, "
              "spliced from the other session, with other public keys, with damaged encodings): all runs of <=3 events "
-             "by BFS + %d random walks of <=6 events; distinct by its event sequence; non-trivial if a signature "
+             "(sessions 1, 2) by BFS + %d random walks of <=9 events (sessions 1-3); distinct by its event sequence; non-trivial if a signature "
              "message is delivered" % len(walks),
         assumptions=["secp256k1 ECDSA, SHA3, ECDH(P-256) and HKDF are trusted primitives (symbolic in the spec)",
                      "the attacker knows only the session secret of its own session and cannot sign with other keys",
@@ -43,3 +47,13 @@ def run(ctx):
                      "is not exercised (plaintext and ECDHE with the three AEAD suites are)",
                      "the dialer side has no self-identity test: a reflected SignatureRequest makes the dialer accept "
                      "its own identity (it is a signature by that key over this session's secret; modelled so)"])
+
+
+def rerun(ctx):
+    """Re-execute exactly the behaviour (and concretization) stored in a replay file."""
+    d = json.load(open(ctx.replay))["detail"]
+    inp = ctx.path("in", "behaviours.ndjson")
+    with open(inp, "w") as fh:
+        fh.write(json.dumps({"behaviour": d["behaviour"], "sub": d["sub"]}) + "\n")
+    ctx.absorb(ctx.go_replay("handshake", "TestReplay", inp))
+    return ctx.finish(rule="re-execution of one stored behaviour", assumptions=["replay of %s" % ctx.replay])
